@@ -98,6 +98,20 @@ fn field_section<F: FieldLike>(ctx: &Ctx, out: &mut String, rng: &mut rand_chach
             let _ = writeln!(out, "{name} cmp/eq/ne/hash a={} b={} -> {:?}", hexs(a), hexs(bb), r);
         }
     }
+    // inversion and division on the inputs that need the most divstep iterations, and on the fold-symmetric ones
+    for (zi, (v, class)) in zoo.iter().enumerate() {
+        if !(*class == "divstep-worst-case" || *class == "limb-fold-symmetry") || zi % nshards != shard {
+            continue;
+        }
+        let la = F::from_b(v);
+        let r = g(|| (F::invs()[0].f)(la).map(|x| hx(&to_le(&x.to_b(), n))));
+        let _ = writeln!(out, "{name} inverse a={} -> {:?}", hexs(v), r);
+        let lb = F::from_b(&b(7));
+        for form in bins.iter().take(nb).filter(|x| x.op == Op2::Div).take(2) {
+            let r = g(|| hx(&to_le(&(form.f)(lb, la).to_b(), n)));
+            let _ = writeln!(out, "{name} {} a=7 b={} -> {:?}", form.name, hexs(v), r);
+        }
+    }
     let reps = scale;
     for rep in 0..reps {
         let a = if rep % 3 == 0 { zoo[rand_range(rng, zoo.len())].0.clone() } else { rand_below(rng, &f.p) };
